@@ -1,6 +1,6 @@
 (* EditProofs.v -- proofs about Edit.v: ldb_edit_import (ldb_edit_export e) returns
    the canonical form of e for every well-formed edit. *)
-From LCDB Require Import Base Varint BaseProofs VarintProofs Edit.
+From LCDB Require Import Base Varint BaseProofs VarintProofs MetaLemmas Edit.
 From Coq Require Import Lia ZifyBool ZifyNat ZifyN Sorted.
 Local Open Scope N_scope.
 
@@ -16,30 +16,6 @@ Ltac Zify.zify_post_hook ::= Z.div_mod_to_equations.
 (* ------------------------------------------------------------------ *)
 (* Readers consume input                                               *)
 (* ------------------------------------------------------------------ *)
-
-Lemma varint32_read_shrinks : forall l v r,
-  varint32_read l = Some (v, r) -> (length r < length l)%nat.
-Proof.
-  intros l v r H. apply varint32_read_spec_gen in H.
-  destruct H as [_ [pre [Heq Hl]]]. subst l. rewrite app_length. lia.
-Qed.
-
-Lemma varint64_read_shrinks : forall l v r,
-  varint64_read l = Some (v, r) -> (length r < length l)%nat.
-Proof.
-  intros l v r H. apply varint64_read_spec_gen in H.
-  destruct H as [_ [pre [Heq Hl]]]. subst l. rewrite app_length. lia.
-Qed.
-
-Lemma slice_read_shrinks : forall l s r,
-  slice_read l = Some (s, r) -> (length r < length l)%nat.
-Proof.
-  unfold slice_read. intros l s r H.
-  destruct (varint32_read l) as [[n b]|] eqn:Hv; [|discriminate H].
-  destruct (nlen b <? n); [discriminate H|].
-  injection H as _ Hr. subst r. apply varint32_read_shrinks in Hv.
-  unfold drop_n. rewrite skipn_length. lia.
-Qed.
 
 Lemma level_read_shrinks : forall l v r,
   level_read l = Some (v, r) -> (length r < length l)%nat.
@@ -368,19 +344,20 @@ Proof.
   intros a b H. unfold fe_lt in H. rewrite fe_compare_antisym, H. reflexivity.
 Qed.
 
+Lemma fe_lt_iff : forall a b,
+  fe_lt a b <-> (fst a < fst b \/ (fst a = fst b /\ snd a < snd b)).
+Proof.
+  intros [a1 a2] [b1 b2]. unfold fe_lt, fe_compare. cbn [fst snd].
+  destruct (N.compare a1 b1) eqn:H1.
+  - apply N.compare_eq_iff in H1. rewrite N.compare_lt_iff. split; [intros; right; split; assumption|].
+    intros [H|[_ H]]; [lia|exact H].
+  - apply N.compare_lt_iff in H1. split; [intros; left; exact H1|reflexivity].
+  - apply N.compare_gt_iff in H1. split; [discriminate|]. intros [H|[H _]]; lia.
+Qed.
+
 Lemma fe_lt_trans : forall a b c, fe_lt a b -> fe_lt b c -> fe_lt a c.
 Proof.
-  intros [a1 a2] [b1 b2] [c1 c2]. unfold fe_lt, fe_compare. cbn [fst snd].
-  destruct (N.compare a1 b1) eqn:H1; try discriminate;
-  destruct (N.compare b1 c1) eqn:H2; try discriminate; intros Ha Hb;
-  try apply N.compare_eq_iff in H1; try apply N.compare_eq_iff in H2;
-  try apply N.compare_lt_iff in H1; try apply N.compare_lt_iff in H2;
-  try apply N.compare_lt_iff in Ha; try apply N.compare_lt_iff in Hb; subst.
-  - rewrite N.compare_refl. apply N.compare_lt_iff. lia.
-  - replace (c1 ?= c1) with Eq by (symmetry; apply N.compare_refl).
-    replace (b1 ?= c1) with Lt by (symmetry; apply N.compare_lt_iff; exact H2). reflexivity.
-  - replace (a1 ?= c1) with Lt by (symmetry; apply N.compare_lt_iff; exact H1). reflexivity.
-  - replace (a1 ?= c1) with Lt by (symmetry; apply N.compare_lt_iff; lia). reflexivity.
+  intros a b c. rewrite !fe_lt_iff. lia.
 Qed.
 
 Definition fe_sorted (l : list (N * N)) : Prop := StronglySorted fe_lt l.
